@@ -12,6 +12,7 @@ import copy
 import hashlib
 import io
 import os
+import re
 import signal
 import sys
 import traceback
@@ -1116,24 +1117,45 @@ def through_dynamic_array(tree, path):
 
 
 def compile_generated(files, outdir, seen_dir=None):
-    """Compile every generated .c file (strict ANSI C, syntax only).  Deduplicates by content hash
-    through marker files in seen_dir.  Returns list of (file, compiler output) failures."""
+    """Compile every generated .c file (strict ANSI C, syntax only).  With seen_dir, identical
+    generated contents are compiled once (across worker processes) and the verdict is shared.
+    Returns list of (file, compiler output) failures."""
+    import json
+    import time as _time
     import bt
     fails = []
     for name in sorted(files):
         if not name.endswith('.c'):
             continue
+        resf = lockf = None
         if seen_dir is not None:
             h = sha('\0'.join('%s\0%s' % (n, files[n]) for n in sorted(files) if n.endswith(('.c', '.h'))) + name)
-            try:
-                fd = os.open(os.path.join(seen_dir, h), os.O_CREAT | os.O_EXCL | os.O_WRONLY)
-                os.close(fd)
-            except FileExistsError:
+            resf, lockf = os.path.join(seen_dir, h + '.res'), os.path.join(seen_dir, h + '.lock')
+            mine = False
+            if not os.path.exists(resf):
+                try:
+                    os.close(os.open(lockf, os.O_CREAT | os.O_EXCL | os.O_WRONLY))
+                    mine = True
+                except FileExistsError:
+                    for _ in range(100):     # another worker compiles the same contents
+                        if os.path.exists(resf):
+                            break
+                        _time.sleep(0.1)
+            if not mine and os.path.exists(resf):
+                with open(resf) as f:
+                    out = json.load(f)
+                if out:
+                    fails.append((name, out))
                 continue
         rc, out = bt.cc(['-ansi', '-pedantic-errors', '-fsyntax-only', '-I', outdir, os.path.join(outdir, name)],
                         cwd=outdir, timeout=120)
+        out = re.sub(r'/\S*/(gen[^/ ]*/)', r'\1', out)[-1500:] if rc != 0 else ''
+        if resf is not None:
+            with open(resf + '.tmp%d' % os.getpid(), 'w') as f:
+                json.dump(out, f)
+            os.replace(resf + '.tmp%d' % os.getpid(), resf)
         if rc != 0:
-            fails.append((name, out[-1500:]))
+            fails.append((name, out))
     return fails
 
 
